@@ -317,6 +317,45 @@ theorem size_test_on_whole_buffer_buggy_counterexample :
   · simpa using decodeStep_frame ⟨100, 5, 50⟩ (by decide) rpc100 good100 []
   · exact decodeStep_frame ⟨100, 5, 50⟩ (by decide) rpc60 good60 (frame rpc60)
 
+/-! ## the codec's constructor parameters: the frame bound is the GLOBAL max -/
+
+/-- **C31.frame_bound_is_global** — whatever the per-topic `max_transmit_sizes` map is (also with
+topics whose max exceeds the global one), a frame whose declared length exceeds the GLOBAL
+`max_transmit_size` is an error as soon as its length prefix is complete. -/
+theorem frame_bound_is_global (globalMax : Nat) (perTopic : List (List Nat × Nat)) (mp mc : Nat)
+    (n : Nat) (hn : globalMax < n) (h63 : n < 2 ^ 63) (rest : List Nat) :
+    (Codec.new globalMax perTopic mp mc).decodeStep (Varint.encode n ++ rest) = .err .tooLarge :=
+  rejects_oversize ⟨globalMax, mp, mc⟩ n hn h63 rest
+
+/-- the framing verdict does not depend on the per-topic map at all -/
+theorem frame_verdict_independent_of_per_topic (globalMax : Nat) (pt pt' : List (List Nat × Nat)) (mp mc : Nat)
+    (buf : List Nat) :
+    (Codec.new globalMax pt mp mc).decodeStep buf = (Codec.new globalMax pt' mp mc).decodeStep buf := rfl
+
+/-- **C31.accepts_within_global** — `accepts_within_limits` for a codec built by `GossipsubCodec::new`
+with ANY per-topic map: RPCs within the global max and the publish/control limits are all
+delivered, for every chunking (per-topic maxima below the global one only move single messages to
+`invalid_messages`, they never reject the RPC). -/
+theorem accepts_within_global (globalMax : Nat) (perTopic : List (List Nat × Nat)) (mp mc : Nat)
+    (hL : globalMax < 2 ^ 63) (rs : List (List Field)) (hgood : ∀ r ∈ rs, good ⟨globalMax, mp, mc⟩ r)
+    (cs : List (List Nat)) (hcs : cs.flatten = stream rs) :
+    runE (Codec.new globalMax perTopic mp mc).decodeStep [] cs = (rs.map (·.map tokOf), none, []) :=
+  accepts_within_limits ⟨globalMax, mp, mc⟩ hL rs hgood cs hcs
+
+/-- **C31.per_topic_check** — the per-message check as the code has it: a publish entry is moved to
+`invalid_messages` exactly when its topic HAS an entry in `max_transmit_sizes` and the message's
+encoded length exceeds that entry; a message on an unconfigured topic is never rejected by it. -/
+theorem per_topic_check (C : Codec) (payload : List Nat) :
+    C.tooLargeForTopic payload = true ↔ ∃ max, C.maxFor (msgTopic payload) = some max ∧ payload.length > max := by
+  unfold Codec.tooLargeForTopic
+  cases h : C.maxFor (msgTopic payload) with
+  | none => simp
+  | some max => simp
+
+theorem unconfigured_topic_never_too_large (C : Codec) (payload : List Nat)
+    (h : C.maxFor (msgTopic payload) = none) : C.tooLargeForTopic payload = false := by
+  unfold Codec.tooLargeForTopic; rw [h]
+
 /-! ## split independence for ALL byte streams, totality -/
 
 /-- **C31.split_independent** — for EVERY byte stream (well-formed or not) and every chunking, the
@@ -446,3 +485,7 @@ end C31
 #print axioms C31.buggy_not_stable
 #print axioms C31.no_panic
 #print axioms C31.spec_accepts_model
+#print axioms C31.frame_bound_is_global
+#print axioms C31.frame_verdict_independent_of_per_topic
+#print axioms C31.accepts_within_global
+#print axioms C31.per_topic_check
